@@ -22,15 +22,21 @@ LOG = {"evaluations": {"wrap": 0, "rst_plain": 0, "rst_markup": 0, "fix_whitespa
        "in_situ": {"wrap": 0, "rst_plain": 0, "rst_markup": 0, "fix_whitespace": 0},
        "violations": [], "generation_errors": [], "widths_seen": {}, "ws_parsed": 0}
 MODE = {"in_situ": True}
-MAXV = 60
+MAXV = 12
 
 
 class ContractBroken(Exception):
     pass
 
 
+_PER_CLAUSE = {}
+
+
 def _viol(contract, clause, **detail):
-    if len(LOG["violations"]) < MAXV:
+    # capped per (contract, clause, in-situ or fuzz): a frequent (possibly known) violation must never crowd out another kind
+    k = (contract, clause, MODE["in_situ"])
+    _PER_CLAUSE[k] = _PER_CLAUSE.get(k, 0) + 1
+    if _PER_CLAUSE[k] <= MAXV:
         full = detail.get("text") or detail.get("code") or ""
         detail.setdefault("has_tab", "\t" in full)
         detail["has_triple_quote"] = '\"\"\"' in full
